@@ -58,6 +58,14 @@ def gen(rng, facts):
             c.poll(inj)
     # drain: let blocked producers finish, move the clock past the grace period, poll until idle
     n0 = len(c.cmds)
+    if rng.random() < 0.3:
+        # the backend is stopped instead: its exit drain (BackendWorker::_exit, wait_for_queues_to_empty_before_exit) has to
+        # deliver everything accepted so far, from every thread, whatever the order in which the threads registered
+        for t in range(nt): c.resume(t)
+        c.stop(0 if c.grace == 0 else rng.choice([c.grace, 3 * c.grace]))
+        c.ctx()
+        c.keep_tail = len(c.cmds) - n0
+        return c
     for _ in range(6):
         for t in range(nt): c.resume(t)
         c.tick(2000)
